@@ -306,13 +306,18 @@ func realScanChunked(data []byte, sizes []int) (obs string) {
 var chunkings = [][]int{{1}, {2}, {3, 1}, {5, 7, 1}, {511}, {513, 2}, {64}}
 
 func realFormat(ops []content.Operator) []byte {
+	text, _ := realFormatErr(ops)
+	return text
+}
+
+func realFormatErr(ops []content.Operator) ([]byte, error) {
 	var buf bytes.Buffer
 	for _, op := range ops {
 		if err := op.Format(&buf); err != nil {
-			return nil
+			return nil, err
 		}
 	}
-	return buf.Bytes()
+	return buf.Bytes(), nil
 }
 
 // ---------------------------------------------------------------------------
@@ -596,7 +601,19 @@ func (h *harness) operators(ops []content.Operator, class string) {
 	cl := opsClass(ops)
 	h.e.Count(true, class+opsRaw(ops), class+":"+cl)
 	want := opsCanon(ops)
-	text := realFormat(ops)
+	text, ferr := realFormatErr(ops)
+	if ferr != nil {
+		// the writer refuses the value (types.go refuses what the scanners' limits would
+		// reject): fine outside the domain, a failing input inside it
+		if cl == "ok" {
+			h.nsig["format-error"]++
+			if h.nsig["format-error"] <= 5 {
+				h.e.Fail("format-error", fmt.Sprintf("Operator.Format refuses operators of the domain: %v", ferr), map[string]any{"ops": opsRaw(ops)})
+			}
+		}
+		h.e.Dist["writer-refuses:"+cl]++
+		return
+	}
 	got := realScan(text)
 	if cl != "outside" && got != want {
 		sig := "roundtrip"
